@@ -37,6 +37,8 @@ func preflightPlan() Plan {
 //	twin       two keypers on one chain with different head schedules
 //	epk        EonPubKeySyncer: empty keys, window, fork with another key for the same eon
 //	ss         ShutterStateSyncer: poll at latest, paused / unpaused on two subscriptions
+//	all        all four syncers of one client: the start-up phases of Client.Start in sequence with
+//	           notifications of the syncers already running in between
 //	from       a node that replays logs from fromBlock on (what Start = S seems to assume)
 //	huge       an activation block >= 2^63
 //	live       bounded liveness (no histories; see runLive)
@@ -59,6 +61,8 @@ func plans(c *core.Ctx) []Plan {
 				Events: evs(none, ks(2), ek(0, 1), ek(0, 2), ek(1, 1)), MaxEvents: 2, Replay: 200},
 			{Name: "ss", KS: twoToks, NC: 1, Handlers: []string{"ss"}, MaxBlocks: 4, MaxLeaves: 2, MaxForkDepth: 1,
 				Events: evs(none, Ev{T: "pause"}, Ev{T: "unpause"}), MaxEvents: 3, MaxFaults: 1, FaultAt: []string{"poll"}, Replay: 150},
+			{Name: "all", KS: twoToks, NC: 1, Handlers: []string{"ks", "ek", "ss", "uh"}, MaxBlocks: 3, MaxLeaves: 2, MaxForkDepth: 1,
+				Events: evs(none, ks(2), ek(0, 1), Ev{T: "pause"}), MaxEvents: 1, Replay: 200},
 			{Name: "from", KS: lateToks, NC: 1, Handlers: []string{"ks"}, NodeSub: "from", MaxBlocks: 4, MaxLeaves: 1, Events: evs(none, ks(2)), MaxEvents: 1,
 				Replay: 80},
 			{Name: "huge", KS: hugeToks, NC: 1, Handlers: opH, MaxBlocks: 3, MaxLeaves: 1, Events: evs(none, ks(2)), MaxEvents: 1, Replay: 60},
@@ -72,7 +76,7 @@ func plans(c *core.Ctx) []Plan {
 			{Name: "op-reorg", KS: opToks, NC: 1, Handlers: opH, MaxBlocks: 6, MaxLeaves: 2, MaxForkDepth: 1, Events: evs(none, ks(2), ks(3)), MaxEvents: 2,
 				Replay: 3000},
 			{Name: "op-reorg2", KS: opToks, NC: 1, Handlers: opH, MaxBlocks: 5, MaxLeaves: 2, MaxForkDepth: 2, Events: evs(none, ks(2), ks(3)), MaxEvents: 2,
-				AllowSwitch: true, EarlyNew: true, Replay: 2500},
+				MaxSwitches: 1, EarlyNew: true, Replay: 2500},
 			{Name: "op-restart", KS: opToks, NC: 1, Handlers: opH, MaxBlocks: 4, MaxLeaves: 2, MaxForkDepth: 1, Events: evs(none, ks(2), ks(3)), MaxEvents: 2,
 				MaxStops: 1, Replay: 2500},
 			{Name: "op-fault", KS: twoToks, NC: 1, Handlers: opH, MaxBlocks: 4, MaxLeaves: 2, MaxForkDepth: 1, Events: evs(none, ks(2)), MaxEvents: 1,
